@@ -971,11 +971,17 @@ pub fn gen_scenario(run_seed: u64, variant: &str, tier: Tier) -> E1Scenario {
         let mut live: Vec<usize> = Vec::new();
         let mut freed: Vec<usize> = Vec::new();
         let mut just_freed: Option<usize> = None;
+        let mut just_failed = false;
         let mut ops = Vec::new();
         let adversarial = variant != "c13";
         for _ in 0..len {
+            let jfail = std::mem::take(&mut just_failed);
             let pick_ref = |rs: &mut Rng, live: &Vec<usize>, freed: &Vec<usize>, just_freed: Option<usize>| -> TaskRef {
                 if adversarial {
+                    // right after a refused initiate: the id that call may have consumed
+                    if jfail && rs.chance(2, 3) {
+                        return TaskRef::Unissued(rs.below(2));
+                    }
                     if let Some(s) = just_freed {
                         if rs.chance(1, 2) {
                             return TaskRef::Slot(s);
@@ -1002,6 +1008,15 @@ pub fn gen_scenario(run_seed: u64, variant: &str, tier: Tier) -> E1Scenario {
                     let f = rs.below(sc.files.len());
                     let v = rs.below(sc.files[f].versions.len());
                     let fv = &sc.files[f].versions[v];
+                    if adversarial && rs.chance(1, 8) {
+                        // a root file the parser refuses (plain syntax errors): the task must not exist
+                        let src = *rs.pick(&["query Broken {\n  version\n", "}", "fragment F on", "query Q { a { } }", "#import X from\nquery {"]);
+                        ops.push(Op::Initiate { slot: next_slot, file: sc.files[f].path.clone(), src: src.into(), imports: None });
+                        freed.push(next_slot);
+                        just_failed = true;
+                        next_slot += 1;
+                        continue;
+                    }
                     ops.push(Op::Initiate { slot: next_slot, file: sc.files[f].path.clone(), src: fv.text.clone(), imports: fv.imports.clone() });
                     live.push(next_slot);
                     next_slot += 1;
@@ -1011,6 +1026,12 @@ pub fn gen_scenario(run_seed: u64, variant: &str, tier: Tier) -> E1Scenario {
                     let f = rs.below(sc.files.len());
                     let v = rs.below(sc.files[f].versions.len());
                     let fv = &sc.files[f].versions[v];
+                    if adversarial && rs.chance(1, 10) {
+                        // a supplied file the parser refuses: load_file takes its error arm
+                        let src = *rs.pick(&["fragment Broken on {", "{{", "query Q($v: ) { version }"]);
+                        ops.push(Op::Load { t: pick_ref(&mut rs, &live, &freed, jf), file: sc.files[f].path.clone(), src: src.into(), imports: None });
+                        continue;
+                    }
                     ops.push(Op::Load { t: pick_ref(&mut rs, &live, &freed, jf), file: sc.files[f].path.clone(), src: fv.text.clone(), imports: fv.imports.clone() });
                 }
                 3 => ops.push(Op::Emit { t: pick_ref(&mut rs, &live, &freed, jf) }),
